@@ -184,7 +184,8 @@ def rs_decls(p, nm, order=None, inits=None):
         d = p["rels"][r]
         kw = "lattice" if d.get("lat") else "relation"
         init = f" = {inits[r]}" if inits and r in inits else ""
-        out.append(f"{kw} {nm.rel(r)}({', '.join(col_types(p, r, nm))}){init};")
+        ds = f"#[ds(ascent_byods_rels::{d['ds']})] " if d.get("ds") else ""
+        out.append(f"{ds}{kw} {nm.rel(r)}({', '.join(col_types(p, r, nm))}){init};")
     return out
 
 def rs_program(p, nm=None, macro="ascent", attrs=(), struct="Prog", rule_order=None, decl_order=None, extra=""):
@@ -451,3 +452,29 @@ def split_key(tuple_text):
         elif ch == "(": depth -= 1
         elif ch == " " and depth == 0: cut = i; break
     return inner[:cut] if cut is not None else ""
+
+
+# ------------------------------------------------------------------ BYODS: the explicit-closure twin of a tagged relation
+
+def closure_rules(r, arity, kind):
+    """the rules an untagged relation needs to behave like `#[ds(kind)]`: eqrel = reflexive on mentioned elements,
+    symmetric, transitive; trrel = transitive; trrel_uf = reflexive on mentioned elements and transitive (per key K for arity 3)"""
+    k = [("v", 9)] if arity == 3 else []
+    kh = [("var", 9)] if arity == 3 else []
+    cl = lambda a, b: ("cl", r, k + [("v", a), ("v", b)], [])
+    hd = lambda a, b: (r, kh + [("var", a), ("var", b)])
+    rules = []
+    if kind in ("eqrel", "trrel_uf"):
+        rules.append({"heads": [hd(0, 0), hd(1, 1)], "body": [cl(0, 1)]})
+    if kind == "eqrel":
+        rules.append({"heads": [hd(1, 0)], "body": [cl(0, 1)]})
+    rules.append({"heads": [hd(0, 2)], "body": [cl(0, 1), cl(1, 2)]})
+    return rules
+
+
+def twin(p):
+    """same program with every `ds`-tagged relation untagged and closed by explicit rules"""
+    q = {"rels": [{k: v for k, v in d.items() if k != "ds"} for d in p["rels"]], "rules": list(p["rules"])}
+    for r, d in enumerate(p["rels"]):
+        if d.get("ds"): q["rules"] += closure_rules(r, d["arity"], d["ds"])
+    return q
